@@ -471,8 +471,20 @@ type lvalueOrVal struct {
 // ---------- invoke (interface method calls) ----------
 
 func (bs *blockState) invoke(x *ssa.Call) {
+	var rt types.Type
+	if x.Type() != nil && !isEmptyTuple(x.Type()) {
+		rt = x.Type()
+	}
+	res := bs.invokeCommon(&x.Call, x, rt)
+	if rt != nil {
+		bs.e.regs[x] = res
+	}
+}
+
+// invokeCommon applies the contract of an interface method (also used for deferred interface calls,
+// whose results are discarded).
+func (bs *blockState) invokeCommon(c *ssa.CallCommon, x ssa.Instruction, rt types.Type) Val {
 	e := bs.e
-	c := x.Call
 	recvT := c.Value.Type()
 	var key string
 	if n, ok := recvT.(*types.Named); ok {
@@ -494,14 +506,7 @@ func (bs *blockState) invoke(x *ssa.Call) {
 	for _, a := range c.Args {
 		args = append(args, bs.val(a))
 	}
-	var rt types.Type
-	if x.Type() != nil && !isEmptyTuple(x.Type()) {
-		rt = x.Type()
-	}
-	res := bs.applyContract(spec, key, args, x, rt)
-	if rt != nil {
-		e.regs[x] = res
-	}
+	return bs.applyContract(spec, key, args, x, rt)
 }
 
 // ---------- defer / recover ----------
@@ -557,6 +562,15 @@ func (bs *blockState) runDeferred(ins ssa.Instruction, pv *Val) (recovered bool)
 		}
 		var rec *Val
 		nilI := zeroVal(types.NewInterfaceType(nil, nil))
+		if c.IsInvoke() {
+			// deferred interface method call: the contract of the interface method, results discarded
+			cc := c
+			bs.invokeCommon(&cc, ins, nil)
+			if bs.dead {
+				return
+			}
+			continue
+		}
 		switch f := c.Value.(type) {
 		case *ssa.MakeClosure:
 			fn := f.Fn.(*ssa.Function)
